@@ -151,8 +151,10 @@ fn check_candle(c: &Candle, pcs: &[V], r: &mut Report) {
 
 fn special_product(ctx: &Ctx, r: &mut Report) {
 	let tiny = V::MIN_POSITIVE;
-	let price: [V; 10] = [V::NAN, V::INFINITY, V::NEG_INFINITY, -1.0, -0.0, 0.0, tiny, 1.0, 2.0, V::MAX];
-	let vol: [V; 11] = [V::NAN, -V::NAN, V::INFINITY, V::NEG_INFINITY, -1.0, -0.0, 0.0, tiny, 1.0, V::MAX, -tiny];
+	// `sub`: subnormal (positive, finite, ordered like any other price)
+	let sub = V::from_bits(3);
+	let price: [V; 12] = [V::NAN, V::INFINITY, V::NEG_INFINITY, -1.0, -0.0, 0.0, sub, tiny, 1.0, 2.0, V::MAX, -sub];
+	let vol: [V; 12] = [V::NAN, -V::NAN, V::INFINITY, V::NEG_INFINITY, -1.0, -0.0, 0.0, sub, tiny, 1.0, V::MAX, -tiny];
 	let pcs: [V; 6] = [V::NAN, 0.5, 1.5, 3.0, V::INFINITY, -1.0];
 	let mut k = 0u64;
 	let mut accepted = 0u64;
@@ -174,7 +176,7 @@ fn special_product(ctx: &Ctx, r: &mut Report) {
 		}
 	}
 	r.count("special_product_accepted", accepted);
-	r.cell("validate:special-value-product(10^4x11)");
+	r.cell("validate:special-value-product(12^4x12)");
 }
 
 fn random_candles(ctx: &Ctx, r: &mut Report) {
@@ -238,18 +240,33 @@ fn random_candles(ctx: &Ctx, r: &mut Report) {
 		}
 		r.cell("Sequence::validate");
 		// aggregation by + : associativity
-		for w in cs.windows(3).step_by(3) {
-			let (a, b, c) = (w[0], w[1], w[2]);
+		for (wi, w) in cs.windows(3).step_by(3).enumerate() {
+			let (mut a, mut b, mut c) = (w[0], w[1], w[2]);
+			// candles without volume (NaN) in every position pattern: NaN is absorbing, on either side
+			let pat = wi % 8;
+			if pat & 1 != 0 && wi % 3 == 0 {
+				a.volume = V::NAN;
+			}
+			if pat & 2 != 0 && wi % 3 != 1 {
+				b.volume = V::NAN;
+			}
+			if pat & 4 != 0 && wi % 3 == 2 {
+				c.volume = V::NAN;
+			}
+			let any_nan = a.volume.is_nan() || b.volume.is_nan() || c.volume.is_nan();
 			let l = (a + b) + c;
 			let rr = a + (b + c);
 			r.eval(1);
 			let ohlc_same = biteq(l.open, rr.open) && biteq(l.high, rr.high) && biteq(l.low, rr.low) && biteq(l.close, rr.close);
 			let vs = (a.volume as f64).abs() + (b.volume as f64).abs() + (c.volume as f64).abs();
-			let vol_close = ((l.volume as f64) - (rr.volume as f64)).abs() <= 4.0 * EPS * vs;
+			let vol_close = if any_nan { l.volume.is_nan() && rr.volume.is_nan() } else { ((l.volume as f64) - (rr.volume as f64)).abs() <= 4.0 * EPS * vs };
+			if any_nan {
+				r.cell("add:associativity:with-volume-less-candles");
+			}
 			if !ohlc_same || !vol_close {
 				r.violate("C18|add|not-associative", "(a+b)+c != a+(b+c)", || json!({"a": cj(&a), "b": cj(&b), "c": cj(&c)}));
 			}
-			if class == 3 && !biteq(l.volume, rr.volume) {
+			if class == 3 && !any_nan && !biteq(l.volume, rr.volume) {
 				r.violate("C18|add|grid-volume-not-exact", "grid volumes must sum exactly", || json!({"a": cj(&a), "b": cj(&b), "c": cj(&c)}));
 			}
 			// meaning of +
